@@ -29,10 +29,24 @@ impl NostrTagFormat for ExtensionType {
     }
 }
 
+/// Smallest well-formed NIP-44 v2 payload in bytes: version byte, 32-byte nonce, 2-byte length
+/// prefix plus 32 bytes of padded plaintext, 32-byte MAC.
+const NIP44_MIN_PAYLOAD_LEN: usize = 99;
+
 pub(crate) fn decrypt_with_exporter_secret(
     secret: &GroupExporterSecret,
     encrypted_content: &str,
 ) -> Result<Vec<u8>, Error> {
+    // Refuse payloads that are too short to be NIP-44 v2 before handing them to the nip44
+    // implementation: it reads the two length bytes of an authenticated payload without checking
+    // that the ciphertext holds them, so a 65- or 66-byte payload with a valid MAC (anyone holding
+    // an exporter secret can make one) would panic there instead of returning an error.
+    if let Ok(payload) = BASE64.decode(encrypted_content)
+        && payload.len() < NIP44_MIN_PAYLOAD_LEN
+    {
+        return Err(nip44::Error::NotFound(String::from("buffer")).into());
+    }
+
     // Convert that secret to nostr keys
     let secret_key: SecretKey = SecretKey::from_slice(secret.secret.as_ref())?;
     let export_nostr_keys = Keys::new(secret_key);
